@@ -40,6 +40,10 @@ def default_tags(d):
 def op_tags(op, a, b):
     """structural facts about the object a residual / unrelated op names (for classify)"""
     tags = ["op:" + op["k"]]
+    if op["k"] in ("add_fk", "remove_fk"):
+        with_schema = {t["name"] for s in (a, b) for t in s["tables"] if t.get("schema")}
+        if op.get("t") in with_schema or op.get("reftable") in with_schema:
+            tags.append("fk-default-schema")
     if op["k"] in ("modify_default", "modify_type", "modify_nullable"):
         cb = find_col(b, op["t"], op["c"])
         ca = find_col(a, op["t"], op["c"])
@@ -47,7 +51,9 @@ def op_tags(op, a, b):
             if col is None:
                 continue
             tags += ["%s-%s" % (side, x) for x in default_tags(col.get("default"))]
-            tags.append("%s-type:%s" % (side, "unreflectable" if col["ty"]["fam"] in S.UNREFLECTABLE else "reflectable"))
+            tags.append("%s-type:%s" % (side, "unreflectable" if G.effective_ty(col["ty"])["fam"] in S.UNREFLECTABLE else "reflectable"))
+            if col["ty"]["fam"] == "Enum" and (col["ty"].get("variant") or {}).get("dialect") == "sqlite":
+                tags.append("%s-type:enum-with-sqlite-variant" % side)
     return tags
 
 
@@ -216,7 +222,7 @@ def run_pair(ctx, a, b, ct, cd, batch, pending, compare_model=True):
     """quiet + correspondence + converge for one (A, B, settings).  Returns a summary string."""
     inp = {"a": a, "b": b, "ct": ct, "cd": cd, "batch": batch}
     flags = sorted(G.schema_flags(a) | G.schema_flags(b))
-    if "default-func" in flags or "computed-nullable-unset" in flags:
+    if "default-func" in flags or "computed-nullable-unset" in flags or "fk-default-schema" in flags:
         compare_model = False  # SQL function defaults are judged by the implementation-side oracle only
     in_class = not flags and pair_wf(a, b)
     mda, mdb = S.build_metadata(a), S.build_metadata(b)
@@ -311,7 +317,7 @@ def flush_pairs(ctx, pending):
             reqs.append({"op": "diff.diff", "a": inp["a"], "b": inp["b"], **S.cfg_json(inp["ct"], inp["cd"])})
         elif kind == "db":
             reqs.append({"op": "diff.converge", "a": inp["a"], "b": inp["b"], **S.cfg_json(inp["ct"], inp["cd"])})
-    ans = ctx.drv.ask(reqs)
+    ans = ctx.drv.ask(G.to_model(reqs))
     for (kind, inp, ops, extra), m in zip(pending, ans):
         if kind in ("quiet", "converge"):
             if "err" in m:
@@ -370,7 +376,7 @@ def applicable(conn, a, desc):
     m = desc["m"]
     if m == "changeType":
         old = find_col(a, desc["t"], desc["c"])["ty"]
-        return old["fam"] not in S.UNREFLECTABLE and family_of(conn, old) != family_of(conn, desc["ty"])
+        return G.effective_ty(old)["fam"] not in S.UNREFLECTABLE and family_of(conn, old) != family_of(conn, desc["ty"])
     if m == "changeDefault":
         old = find_col(a, desc["t"], desc["c"]).get("default")
         return default_value(old) != default_value(desc["default"])
@@ -436,7 +442,7 @@ def flush_mutations(ctx, pending):
     for inp, b, ops in pending:
         reqs.append({"op": "diff.spec_detect", "a": inp["a"], "m": inp["m"], "ops": ops})
         reqs.append({"op": "diff.diff", "a": inp["a"], "b": b, **S.cfg_json(inp.get("ct", True), inp.get("cd", True))})
-    ans = ctx.drv.ask(reqs)
+    ans = ctx.drv.ask(G.to_model(reqs))
     for i, (inp, b, ops) in enumerate(pending):
         s, m = ans[2 * i], ans[2 * i + 1]
         flags = sorted(G.schema_flags(inp["a"]) | G.schema_flags(b))
@@ -445,6 +451,11 @@ def flush_mutations(ctx, pending):
         elif s.get("holds") is not True:
             if not s.get("reported"):
                 tags = ["missed", "mut:" + inp["m"]["m"]]
+                if inp["m"]["m"] in ("addFK", "dropFK"):
+                    with_schema = {t["name"] for t in inp["a"]["tables"] if t.get("schema")}
+                    fk = inp["m"].get("fk") or next((f for t in inp["a"]["tables"] if t["name"] == inp["m"]["t"] for f in t["fks"] if f["name"] == inp["m"].get("n")), None)
+                    if inp["m"]["t"] in with_schema or (fk and fk["reftable"] in with_schema):
+                        tags.append("fk-default-schema")
                 if inp["m"]["m"] == "changeDefault":
                     old = find_col(inp["a"], inp["m"]["t"], inp["m"]["c"]).get("default")
                     tags += ["old-" + x for x in default_tags(old)] + ["new-" + x for x in default_tags(inp["m"]["default"])]
@@ -454,7 +465,9 @@ def flush_mutations(ctx, pending):
                 ctx.fail({**inp, "unrelated": o}, "unrelated: the upgrade for change %s also contains %s" % (inp["m"]["m"], o),
                          impl={"ops": ops}, tags=["unrelated", "mut:" + inp["m"]["m"]] + op_tags(o, inp["a"], b))
         mo = m.get("ops")
-        if mo is None or S.normalise_order(mo) != S.normalise_order(ops):
+        if "fk-default-schema" in flags:
+            pass  # known finding C07-MAINFK: the model does not mirror the defect; the oracle above still judges
+        elif mo is None or S.normalise_order(mo) != S.normalise_order(ops):
             ctx.disagree("diff.diff", {**inp, "b": b}, S.normalise_order(ops), mo and S.normalise_order(mo), "mutation")
         else:
             ctx.trace_ok()
